@@ -13,7 +13,7 @@
          slookup v (synthetic_partials RInst e enum) = Some s -> incl (vars s) (vars e).
     All the work is done generically in [N : NumOps T] (sections below, axiom-free) and
     instantiated at [RInst]. *)
-From Coq Require Import ZArith List Bool Permutation Lia.
+From Coq Require Import ZArith List Bool Permutation Lia Setoid Rdefinitions.
 From SM Require Import Num Syntax Outcome MathFun Eval Forward Reverse Synth Routes RInst Spec.
 Import ListNotations.
 Local Close Scope R_scope.
@@ -227,14 +227,14 @@ Section PointExt.
       repeat ext_step.
       rewrite power_formula_left_ext. ext_step.
       rewrite power_formula_right_ext. reflexivity.
-    - rewrite (eval_ext a), IHa. repeat ext_step. apply unary_formula_ext.
-    - rewrite (eval_ext a), IHa. repeat ext_step. apply unary_formula_ext.
-    - rewrite (eval_ext a), IHa. repeat ext_step. apply unary_formula_ext.
-    - rewrite (eval_ext a), IHa. repeat ext_step. apply unary_formula_ext.
-    - rewrite (eval_ext a), IHa. repeat ext_step. apply unary_formula_ext.
-    - rewrite (eval_ext a), IHa. repeat ext_step. apply unary_formula_ext.
-    - rewrite (eval_ext a), IHa. repeat ext_step. apply unary_formula_ext.
-    - rewrite (eval_ext a), IHa. repeat ext_step. apply unary_formula_ext.
+    - rewrite (eval_ext a), IHa. repeat ext_step; apply unary_formula_ext.
+    - rewrite (eval_ext a), IHa. repeat ext_step; apply unary_formula_ext.
+    - rewrite (eval_ext a), IHa. repeat ext_step; apply unary_formula_ext.
+    - rewrite (eval_ext a), IHa. repeat ext_step; apply unary_formula_ext.
+    - rewrite (eval_ext a), IHa. repeat ext_step; apply unary_formula_ext.
+    - rewrite (eval_ext a), IHa. repeat ext_step; apply unary_formula_ext.
+    - rewrite (eval_ext a), IHa. repeat ext_step; apply unary_formula_ext.
+    - rewrite (eval_ext a), IHa. repeat ext_step; apply unary_formula_ext.
   Qed.
 
   (** the inner loops of [rev] *)
@@ -293,14 +293,14 @@ Section PointExt.
     - rewrite (eval_ext (Power a b)), power_shortcut_ext, (eval_ext a), (eval_ext b),
         power_formula_left_ext, power_formula_right_ext.
       repeat ext_step. rewrite IHa. ext_step. apply IHb.
-    - rewrite (eval_ext a), unary_formula_ext. repeat ext_step. apply IHa.
-    - rewrite (eval_ext a), unary_formula_ext. repeat ext_step. apply IHa.
-    - rewrite (eval_ext a), unary_formula_ext. repeat ext_step. apply IHa.
-    - rewrite (eval_ext a), unary_formula_ext. repeat ext_step. apply IHa.
-    - rewrite (eval_ext a), unary_formula_ext. repeat ext_step. apply IHa.
-    - rewrite (eval_ext a), unary_formula_ext. repeat ext_step. apply IHa.
-    - rewrite (eval_ext a), unary_formula_ext. repeat ext_step. apply IHa.
-    - rewrite (eval_ext a), unary_formula_ext. repeat ext_step. apply IHa.
+    - rewrite (eval_ext a), unary_formula_ext. repeat ext_step; apply IHa.
+    - rewrite (eval_ext a), unary_formula_ext. repeat ext_step; apply IHa.
+    - rewrite (eval_ext a), unary_formula_ext. repeat ext_step; apply IHa.
+    - rewrite (eval_ext a), unary_formula_ext. repeat ext_step; apply IHa.
+    - rewrite (eval_ext a), unary_formula_ext. repeat ext_step; apply IHa.
+    - rewrite (eval_ext a), unary_formula_ext. repeat ext_step; apply IHa.
+    - rewrite (eval_ext a), unary_formula_ext. repeat ext_step; apply IHa.
+    - rewrite (eval_ext a), unary_formula_ext. repeat ext_step; apply IHa.
   Qed.
 End PointExt.
 
@@ -354,6 +354,218 @@ Proof.
   - cbn [length] in Hlen. lia.
 Qed.
 
+(** ** Variables of the symbolic partials *)
+
+Ltac solve_incl :=
+  let x := fresh "x" in let Hx := fresh "Hx" in
+  intros x Hx; cbn [vars flat_map app] in *;
+  repeat match goal with
+         | H : incl _ _ |- _ => specialize (H x)
+         end;
+  rewrite ?in_app_iff in *; cbn [In] in *; tauto.
+
+Section VarsGen.
+  Context {T : Type} (N : NumOps T).
+
+  Lemma incl_flat_map_elem (l : list (expr T)) (x : expr T) :
+    In x l -> incl (vars x) (flat_map vars l).
+  Proof. intros H y Hy. apply in_flat_map. exists x. split; assumption. Qed.
+
+  Lemma incl_flat_map_remove_nth : forall (i : nat) (l : list (expr T)),
+    incl (flat_map vars (remove_nth i l)) (flat_map vars l).
+  Proof.
+    induction i as [|i IH]; intros [|a l]; cbn [remove_nth flat_map].
+    - apply incl_refl.
+    - apply incl_appr, incl_refl.
+    - apply incl_refl.
+    - apply incl_app; [apply incl_appl, incl_refl|apply incl_appr, IH].
+  Qed.
+
+  Lemma vars_Mul_cons (d : expr T) (l : list (expr T)) :
+    vars (Mul (d :: l)) = vars d ++ flat_map vars l.
+  Proof. reflexivity. Qed.
+
+  Lemma vars_mapi_mul (V : list name) (L : list (expr T)) :
+    incl (flat_map vars L) V ->
+    forall (ds : list (expr T)) (i : nat),
+      Forall (fun d => incl (vars d) V) ds ->
+      incl (flat_map vars (mapi_from i (fun i d => Mul (d :: remove_nth i L)) ds)) V.
+  Proof.
+    intros HL. induction ds as [|d ds IH]; intros i HF; cbn [mapi_from flat_map].
+    - apply incl_nil_l.
+    - inversion HF as [|? ? Hd HF']; subst. apply incl_app.
+      + rewrite vars_Mul_cons. apply incl_app; [exact Hd|].
+        eapply incl_tran; [apply incl_flat_map_remove_nth|exact HL].
+      + apply IH, HF'.
+  Qed.
+
+  Lemma synth_unary_formula_vars (e m : expr T) :
+    incl (vars (synth_unary_formula N e m)) (vars e ++ vars m).
+  Proof.
+    destruct e as [c|x|l|l|a b|a b|a b|a|a|a|a|a n|a n|a base|a base];
+      cbn [synth_unary_formula]; try solve_incl.
+    - destruct n; solve_incl.
+    - destruct n; solve_incl.
+    - destruct (neqb N base (n1 N)); [solve_incl|].
+      destruct (neqb N base (n_e N)); solve_incl.
+    - destruct (neqb N base (n_e N)); solve_incl.
+  Qed.
+
+  Lemma synth_fwd_vars (v : name) : forall e : expr T, incl (vars (synth_fwd N v e)) (vars e).
+  Proof.
+    induction e as [c|x|l IH|l IH|a b IHa IHb|a b IHa IHb|a b IHa IHb
+                   |a IHa|a IHa|a IHa|a IHa|a n IHa|a n IHa|a base IHa|a base IHa]
+      using expr_ind'; cbn [synth_fwd].
+    - apply incl_nil_l.
+    - destruct (name_eqb x v); apply incl_nil_l.
+    - change (incl (flat_map vars (map (synth_fwd N v) l)) (flat_map vars l)).
+      induction IH as [|x r Hx Hr IHr]; cbn [map flat_map].
+      + apply incl_refl.
+      + apply incl_app; [apply incl_appl, Hx|apply incl_appr, IHr].
+    - change (incl (flat_map vars (mapi_from 0 (fun i d => Mul (d :: remove_nth i l))
+                                     (map (synth_fwd N v) l))) (flat_map vars l)).
+      apply vars_mapi_mul; [apply incl_refl|].
+      apply Forall_forall. intros d Hd. apply in_map_iff in Hd. destruct Hd as [x [<- Hx]].
+      eapply incl_tran; [|apply incl_flat_map_elem, Hx].
+      exact (proj1 (Forall_forall _ l) IH x Hx).
+    - solve_incl.
+    - unfold synth_divide_left, synth_divide_right. solve_incl.
+    - unfold synth_power_left, synth_power_right. solve_incl.
+    - eapply incl_tran; [apply synth_unary_formula_vars|]. solve_incl.
+    - eapply incl_tran; [apply synth_unary_formula_vars|]. solve_incl.
+    - eapply incl_tran; [apply synth_unary_formula_vars|]. solve_incl.
+    - eapply incl_tran; [apply synth_unary_formula_vars|]. solve_incl.
+    - eapply incl_tran; [apply synth_unary_formula_vars|]. solve_incl.
+    - eapply incl_tran; [apply synth_unary_formula_vars|]. solve_incl.
+    - eapply incl_tran; [apply synth_unary_formula_vars|]. solve_incl.
+    - eapply incl_tran; [apply synth_unary_formula_vars|]. solve_incl.
+  Qed.
+
+  (** *** The reverse symbolic route: every accumulator entry stays within [V] *)
+  Definition acc_within (V : list name) (acc : list (name * expr T)) : Prop :=
+    Forall (fun xs => incl (vars (snd xs)) V) acc.
+
+  Lemma slookup_within V (acc : list (name * expr T)) x s :
+    acc_within V acc -> slookup x acc = Some s -> incl (vars s) V.
+  Proof.
+    induction acc as [|[y w] r IH]; cbn [slookup]; intros HF H; [discriminate|].
+    inversion HF as [|? ? Hw HF']; subst. cbn [snd] in Hw.
+    destruct (name_eqb x y).
+    - injection H as <-. exact Hw.
+    - apply IH; assumption.
+  Qed.
+
+  Lemma sacc_set_within V (acc : list (name * expr T)) x s :
+    acc_within V acc -> incl (vars s) V -> acc_within V (sacc_set acc x s).
+  Proof.
+    induction acc as [|[y w] r IH]; cbn [sacc_set]; intros HF Hs.
+    - constructor; [exact Hs|constructor].
+    - inversion HF as [|? ? Hw HF']; subst.
+      destruct (name_eqb x y); constructor.
+      + exact Hs.
+      + exact HF'.
+      + exact Hw.
+      + apply IH; assumption.
+  Qed.
+
+  Lemma sacc_add_within V (acc : list (name * expr T)) x m :
+    acc_within V acc -> incl (vars m) V -> acc_within V (sacc_add acc x m).
+  Proof.
+    intros HF Hm. unfold sacc_add. destruct (slookup x acc) as [ex|] eqn:E.
+    - apply sacc_set_within; [exact HF|].
+      pose proof (slookup_within V acc x ex HF E) as Hex. solve_incl.
+    - apply sacc_set_within; assumption.
+  Qed.
+
+  Definition rev_within (V : list name) (e : expr T) : Prop :=
+    forall m acc, incl (vars e) V -> incl (vars m) V -> acc_within V acc ->
+                  acc_within V (synth_rev N e m acc).
+
+  Lemma synth_rev_add_go_within V (l : list (expr T)) :
+    Forall (rev_within V) l -> incl (flat_map vars l) V ->
+    forall m acc, incl (vars m) V -> acc_within V acc ->
+      acc_within V
+        ((fix go (l : list (expr T)) (acc : list (name * expr T)) {struct l} :=
+            match l with
+            | [] => acc
+            | x :: r => go r (synth_rev N x m acc)
+            end) l acc).
+  Proof.
+    induction 1 as [|x r Hx Hr IH]; cbn [flat_map]; intros Hl m acc Hm Hacc; [exact Hacc|].
+    apply incl_app_inv in Hl. destruct Hl as [Hlx Hlr].
+    apply IH; [exact Hlr|exact Hm|]. apply Hx; assumption.
+  Qed.
+
+  Lemma synth_rev_mul_go_within V (L r : list (expr T)) :
+    incl (flat_map vars L) V ->
+    Forall (rev_within V) r -> incl (flat_map vars r) V ->
+    forall m i acc, incl (vars m) V -> acc_within V acc ->
+      acc_within V
+        ((fix go (i : nat) (r : list (expr T)) (acc : list (name * expr T)) {struct r} :=
+            match r with
+            | [] => acc
+            | x :: r' => go (S i) r' (synth_rev N x (Mul (m :: remove_nth i L)) acc)
+            end) i r acc).
+  Proof.
+    intro HL. induction 1 as [|x r Hx Hr IH]; cbn [flat_map]; intros Hl m i acc Hm Hacc;
+      [exact Hacc|].
+    apply incl_app_inv in Hl. destruct Hl as [Hlx Hlr].
+    apply IH; [exact Hlr|exact Hm|]. apply Hx; [exact Hlx| |exact Hacc].
+    rewrite vars_Mul_cons. apply incl_app; [exact Hm|].
+    eapply incl_tran; [apply incl_flat_map_remove_nth|exact HL].
+  Qed.
+
+  Lemma synth_rev_within V : forall e : expr T, rev_within V e.
+  Proof.
+    induction e as [c|x|l IH|l IH|a b IHa IHb|a b IHa IHb|a b IHa IHb
+                   |a IHa|a IHa|a IHa|a IHa|a n IHa|a n IHa|a base IHa|a base IHa]
+      using expr_ind'; intros m acc He Hm Hacc; cbn [synth_rev].
+    - exact Hacc.
+    - apply sacc_add_within; assumption.
+    - apply synth_rev_add_go_within; assumption.
+    - apply synth_rev_mul_go_within; assumption.
+    - apply IHb; [solve_incl|solve_incl|]. apply IHa; [solve_incl|exact Hm|exact Hacc].
+    - unfold synth_divide_left, synth_divide_right.
+      apply IHb; [solve_incl|solve_incl|]. apply IHa; [solve_incl|solve_incl|exact Hacc].
+    - unfold synth_power_left, synth_power_right.
+      apply IHb; [solve_incl|solve_incl|]. apply IHa; [solve_incl|solve_incl|exact Hacc].
+    - apply IHa; [exact He| |exact Hacc].
+      eapply incl_tran; [apply synth_unary_formula_vars|]. apply incl_app; assumption.
+    - apply IHa; [exact He| |exact Hacc].
+      eapply incl_tran; [apply synth_unary_formula_vars|]. apply incl_app; assumption.
+    - apply IHa; [exact He| |exact Hacc].
+      eapply incl_tran; [apply synth_unary_formula_vars|]. apply incl_app; assumption.
+    - apply IHa; [exact He| |exact Hacc].
+      eapply incl_tran; [apply synth_unary_formula_vars|]. apply incl_app; assumption.
+    - apply IHa; [exact He| |exact Hacc].
+      eapply incl_tran; [apply synth_unary_formula_vars|]. apply incl_app; assumption.
+    - apply IHa; [exact He| |exact Hacc].
+      eapply incl_tran; [apply synth_unary_formula_vars|]. apply incl_app; assumption.
+    - apply IHa; [exact He| |exact Hacc].
+      eapply incl_tran; [apply synth_unary_formula_vars|]. apply incl_app; assumption.
+    - apply IHa; [exact He| |exact Hacc].
+      eapply incl_tran; [apply synth_unary_formula_vars|]. apply incl_app; assumption.
+  Qed.
+
+  Theorem vars_of_synth_rev_gen (e : expr T) (enum : list name) (v : name) (s : expr T) :
+    slookup v (synthetic_partials N e enum) = Some s -> incl (vars s) (vars e).
+  Proof.
+    unfold synthetic_partials, synthetic_partials_for. intro H.
+    pose (f := fun x => match slookup x (synth_rev N e (Const (n1 N)) []) with
+                       | Some w => w
+                       | None => Const (n0 N)
+                       end).
+    change (slookup v (map (fun x => (x, f x)) enum) = Some s) in H.
+    destruct (in_dec Pos.eq_dec v enum) as [I|I].
+    - rewrite (slookup_tabulate_in f v enum I) in H. injection H as <-. unfold f.
+      destruct (slookup v (synth_rev N e (Const (n1 N)) [])) as [w|] eqn:E.
+      + eapply slookup_within; [|exact E].
+        apply synth_rev_within; [apply incl_refl|apply incl_nil_l|constructor].
+      + apply incl_nil_l.
+    - rewrite (slookup_tabulate_notin f v enum I) in H. discriminate.
+  Qed.
+End VarsGen.
+
 (** ** The theorems at RInst *)
 
 Theorem enum_indep : C18_enum_indep.
@@ -368,7 +580,62 @@ Proof. unfold C18_synth_enum_indep. intros e enum enum' v HP. apply synth_enum_i
 Theorem single_name : C18_single_name.
 Proof. unfold C18_single_name. intros e l HP Hlen. apply perm_short; assumption. Qed.
 
+Theorem vars_of_results : C14_vars_of_results.
+Proof. unfold C14_vars_of_results. intros e v. apply synth_fwd_vars. Qed.
+
+Theorem vars_of_synth_rev : forall (e : expr R) (enum : list name) (v : name) (s : expr R),
+  slookup v (synthetic_partials RInst e enum) = Some s -> incl (vars s) (vars e).
+Proof. intros e enum v s. apply vars_of_synth_rev_gen. Qed.
+
+(** ** Non-vacuity: the premises are satisfiable on non-trivial data, and the routes
+    really produce values there *)
+
+Example enum_indep_nonvacuous :
+  Permutation [1; 2]%positive [2; 1]%positive /\
+  component_of RInst
+    (located_differential RInst (Add [Var 1%positive; Var 2%positive]) [2; 1]%positive [])
+    1%positive = Val (0 + 1)%R.
+Proof. split; [apply perm_swap|reflexivity]. Qed.
+
+Example point_perm_nonvacuous :
+  let p := [(1%positive, 2%R); (2%positive, 3%R)] in
+  let p' := [(2%positive, 3%R); (1%positive, 2%R)] in
+  NoDup (map fst p) /\ Permutation p p' /\ p <> p' /\
+  evalR p (Minus (Var 1%positive) (Var 2%positive)) = Val (2 - 3)%R.
+Proof.
+  cbv zeta. split; [|split; [|split]].
+  - cbn [map fst]. constructor.
+    + cbn [In]. intros [H|[]]. discriminate H.
+    + constructor; [intros []|constructor].
+  - apply perm_swap.
+  - intro H. injection H as H _. discriminate H.
+  - reflexivity.
+Qed.
+
+Example synth_enum_indep_nonvacuous :
+  exists s : expr R,
+    slookup 1%positive
+      (synthetic_partials RInst (Mul [Var 1%positive; Var 2%positive]) [2; 1]%positive) = Some s
+    /\ s <> Const (n0 RInst).
+Proof. eexists. split; [reflexivity|discriminate]. Qed.
+
+Example single_name_nonvacuous :
+  Permutation [3%positive] (var_names (Sin (Mul [Var 3%positive; Var 3%positive]) : expr R)) /\
+  (length [3%positive] <= 1)%nat.
+Proof. split; [apply Permutation_refl|apply le_n]. Qed.
+
+Example vars_of_results_nontrivial :
+  vars (synth_fwd RInst 1%positive (Mul [Var 1%positive; Var 2%positive])) <> [].
+Proof. cbn. discriminate. Qed.
+
+Print Assumptions point_perm_gen.
+Print Assumptions enum_indep_gen.
+Print Assumptions synth_enum_indep_gen.
+Print Assumptions synth_fwd_vars.
+Print Assumptions vars_of_synth_rev_gen.
 Print Assumptions enum_indep.
 Print Assumptions point_perm.
 Print Assumptions synth_enum_indep.
 Print Assumptions single_name.
+Print Assumptions vars_of_results.
+Print Assumptions vars_of_synth_rev.
